@@ -359,7 +359,7 @@ def gen_one(rng, thorough, method=None, N=None, bs="rand", k=None, simple=False)
         N = int(rng.integers(1, nmax + 1)) if rng.random() < 0.8 else int(rng.integers(1, 5))
     shape = [int(rng.integers(1, 3))] if simple else K.gen_shape(rng, thorough)
     nflat = int(np.prod(shape))
-    cont = "np" if simple else K.CONTAINERS[int(rng.choice(len(K.CONTAINERS), p=[.34, .1, .1, .08, .08, .1, .06, .06, .08]))]
+    cont = "np" if simple else K.CONTAINERS[int(rng.choice(len(K.CONTAINERS), p=[.31, .09, .09, .07, .07, .09, .05, .05, .07, .04, .03, .04]))]
     if bs == "rand":
         bs = int(rng.integers(1, N + 2))
         if cont in ("np", "tf", "torch") and rng.random() < 0.1:
